@@ -459,10 +459,14 @@ func GRPCStatusFrom(d *Decoded, t http.Header) (present bool, werr *WireError) {
 			if uint32(st.Code) != uint32(n) {
 				d.problem("grpc-status %d disagrees with status proto code %d", n, st.Code)
 			}
-			if st.Message != msg {
+			// HTTP strips optional whitespace around field values, so edge blanks
+			// of grpc-message cannot survive a header block; the status proto is
+			// authoritative for them.
+			if strings.TrimSpace(st.Message) != strings.TrimSpace(msg) {
 				d.problem("grpc-message %q disagrees with status proto message %q", msg, st.Message)
 			}
 			details = st.Details
+			msg = st.Message // the status proto is authoritative when present
 		}
 	}
 	if n == 0 {
